@@ -73,6 +73,7 @@ let builder_case ?(timed=false) id ops_s tf_s =
     obs id "TNI" (let l = iter_insertion_order gg in
                   if l = [] then "-" else
                   String.concat " " (List.mapi (fun i x -> Printf.sprintf "%d:%d" i (int_of_nat x)) l));
+    obs id "PM1" (str_ints mo); obs id "PM2" (str_ints mo); obs id "PM3" (str_ints mo); obs id "PM4" (str_ints io);
     let ks = ints_of ',' tf_s in
     obs id "TF" (try_line mo ks); obs id "TE" (try_line mo ks);
     obs id "P" (Printf.sprintf "%d %d" (int_of_nat pops) (int_of_nat queries));
